@@ -158,7 +158,10 @@ func verifC04ScheduleTies(K int) {
 	vsymAssert(err == nil && len(ctrs) == K, "reference inventory")
 	var iters []logiter
 	for i := 0; i < K; i++ {
-		it, err := rq.openLog(context.Background(), ctrs[i], 1, 2)
+		// one-container selection = the sequential open of that container
+		it, err := rq.SelectLogs(context.Background(), 1, 2, logqlengine.SelectLogsParams{
+			Labels: []logql.LabelMatcher{{Label: "container_id", Op: logql.OpEq, Value: ctrs[i].ID}},
+		})
 		vsymAssert(err == nil, "reference open succeeds")
 		iters = append(iters, it)
 	}
